@@ -13,7 +13,11 @@ LOOP_REGION = 1_000_000  # addresses of objects created by earlier iterations of
 
 
 class LoopSpec:
-    def __init__(self, invariant=None, frame=None, decreases=None, lists=True, note="", ghost=(), single_iteration=None, sets=False, allocates=False, aux=()):
+    def __init__(self, invariant=None, frame=None, decreases=None, lists=True, note="", ghost=(), single_iteration=None, sets=False, allocates=False, aux=(), unroll=None):
+        # unroll=N: no invariant; the loop is executed iteration by iteration (every path must leave it within N
+        # iterations, otherwise the function is `unsupported` - an unwinding assertion, so nothing is cut off silently).
+        # Complete for loops whose trip count is fixed by concrete structure on the path (e.g. the number of arguments).
+        self.unroll = unroll
         self.aux = tuple(aux)  # names of library-state arrays in st.aux (deque histories, map mutations ...) the loop may change
         # allocates: the body creates objects.  Objects created by earlier iterations then live in an address region of
         # their own (>= LOOP_REGION), apart from everything that existed when the loop was entered (addresses <= 0 or
@@ -234,6 +238,9 @@ def exec_while(eng, node, st: State, fr: int):
     if spec is None:
         yield from _unroll_while(eng, node, st, fr, 0)
         return
+    if spec.unroll:
+        yield from _unroll_while(eng, node, st, fr, 0, bound=spec.unroll)
+        return
     entry = st.copy()
     _inv_obligations(eng, spec, LoopCtx(eng, st, fr, entry=LoopCtx(eng, entry, fr)), st, "holds on entry", line)
     frame = _havoc(eng, spec, node.body + [node.test], st, fr)
@@ -268,7 +275,9 @@ def exec_while(eng, node, st: State, fr: int):
                     yield st3, ex
 
 
-def _unroll_while(eng, node, st, fr, k):
+def _unroll_while(eng, node, st, fr, k, bound=None):
+    if bound is not None and k > bound:
+        raise Unsupported(f"while loop at line {node.lineno} does not end within the {bound} unrollings its contract allows (unwinding assertion)")
     if k > 64:
         raise Unsupported(f"while loop at line {node.lineno} needs an invariant")
     for st1, c in eng.eval_cond(node.test, st, fr):
@@ -284,7 +293,7 @@ def _unroll_while(eng, node, st, fr, k):
             else:
                 # a symbolic condition without an invariant: unroll with a case split, up to a small bound (the loop must
                 # then be bounded by something concrete on the path, e.g. a counter - otherwise it needs an invariant)
-                if k > 8:
+                if k > 8 and bound is None:
                     raise Unsupported(f"while loop at line {node.lineno} has a symbolic condition, no invariant, and does not end within 8 unrollings")
                 for st1b, b in eng.branch(c2, st1):
                     if not b:
@@ -295,7 +304,7 @@ def _unroll_while(eng, node, st, fr, k):
                         continue
                     for st2, ex in eng.exec_block(node.body, st1b, fr):
                         if ex is None or ex[0] == "continue":
-                            yield from _unroll_while(eng, node, st2, fr, k + 1)
+                            yield from _unroll_while(eng, node, st2, fr, k + 1, bound)
                         elif ex[0] == "break":
                             yield st2, None
                         else:
@@ -307,11 +316,11 @@ def _unroll_while(eng, node, st, fr, k):
             else:
                 yield st1, None
             continue
-        if isinstance(node.test, ast.Constant):
+        if isinstance(node.test, ast.Constant) and bound is None:
             raise Unsupported(f"`while True` loop at line {node.lineno} needs an invariant")
         for st2, ex in eng.exec_block(node.body, st1, fr):
             if ex is None or ex[0] == "continue":
-                yield from _unroll_while(eng, node, st2, fr, k + 1)
+                yield from _unroll_while(eng, node, st2, fr, k + 1, bound)
             elif ex[0] == "break":
                 yield st2, None
             else:
